@@ -50,6 +50,13 @@ theorem inv_pdoSetByte (h : Inv c s) (n k i v : Nat) : Inv c (pdoSetByte c s n k
   · exact inv_pdoUpdate h _ _ _
   · exact h
 
+theorem inv_pdoReceive (h : Inv c s) (n k dt : Nat) (d : Bytes) : Inv c (pdoReceive s n k dt d) := by
+  unfold pdoReceive
+  simp only []
+  split
+  · exact h.congr rfl rfl
+  · exact h.congr rfl rfl
+
 theorem inv_hbStop (h : Inv c s) (n : Nat) : Inv c (hbStop s n) := inv_stopClear h _
 
 theorem inv_hbStart (h : Inv c s) (n : Nat) (ms : Int) (hv : c.valid (.hb n) = true) :
@@ -156,6 +163,9 @@ theorem inv_exec (h : Inv c s) (op : Op) (hw : op.wellAddressed c = true) : Inv 
   cases op with
   | syncStart p => exact inv_syncStart h p
   | syncStop => exact inv_stopKeep_sync h
+  | syncSetPeriod p => exact h.congr rfl rfl
+  | pdoSetPeriod n k p => exact h.congr rfl rfl
+  | pdoReceive n k dt d => exact inv_pdoReceive h n k dt d
   | pdoStart n k p => exact inv_pdoStart h n k p hw
   | pdoStop n k => exact inv_stopClear h _
   | pdoUpdate n k d => exact inv_pdoUpdate h n k d
